@@ -1,10 +1,11 @@
 import Femio.Lemmas.ResFileProps
 import Femio.Lemmas.ResTextProps
 import Femio.Gen.Tables
+import Femio.Lemmas.ResDirProps
 
 /-! C02 — FrontISTR result files: every value lands on its id, variable, component and step.
 
-Property theorems only (lemmas: `Lemmas/ResProps`, `Lemmas/ResSplit`, `Lemmas/ResFileProps`).
+Property theorems only (lemmas: `Lemmas/ResProps`, `Lemmas/ResSplit`, `Lemmas/ResFileProps`, `Lemmas/ResDirProps`).
 Model: `Model/Res.lean` (one section: `renderSec` = hand specification of the solver's layout, `parseSec` =
 `_parse_res`, `splitSeries` = `_split_series`) and `Model/ResFile.lean` (whole file, both header layouts,
 `to_dict_fem_attributes`, `generate_elemental_attribute`, step selection, time-series branch).
@@ -428,6 +429,54 @@ example : readDirSeries Cfg.fixed (fun _ => true) [] 1 1 [(10, exStep 100), (2, 
     = some ⟨[2, 10], [⟨['T'], [5], [[[20]], [[100]]]⟩], []⟩ := by decide
 example : readDirLatest (fun _ => true) [] 1 1 [(10, exStep 100), (2, exStep 20)]
     = some (some (10, ⟨[⟨['T'], [5], [[100]]⟩], []⟩)) := by decide
+
+/-! ### which files are the result files of a directory (round 5) -/
+/-- **C02_res_glob_any_stem** — a file named `<stem>.res.<anything>` is taken for a result file by
+    `read_directory('fistr', dir)` whatever its stem is (non-empty and not starting with a dot, as `glob` demands): in particular
+    whatever the mesh file of the directory is called.  With `C02_res_glob_listing` (the selection is a filter of the
+    listing by a predicate on the single name) the result files found do not depend on the other files of the
+    directory, and with `C02_step_of_name` the step number of `<stem>.res.<rank>.<step>` is `step`. -/
+theorem C02_res_glob_any_stem (stem tail : List Char) (hne : stem ≠ []) (h : stem.head? ≠ some '.') :
+    resGlob (stem ++ resInfix ++ tail) = true := by
+  unfold resGlob
+  rw [hasInfix_append]
+  cases stem with
+  | nil => exact absurd rfl hne
+  | cons c s =>
+    have hc : c ≠ '.' := by simpa using h
+    simp only [List.cons_append, Bool.and_true]
+    split
+    · rename_i heq; simp at heq; exact absurd heq.1 hc
+    · rfl
+
+/-- **C02_res_glob_listing** — the result files of a directory are exactly the names of the listing that match,
+    in listing order; adding or renaming other files (mesh, control file, logs) does not change them. -/
+theorem C02_res_glob_listing (l₁ l₂ : List (List Char)) (name : List Char) :
+    findRes (l₁ ++ l₂) = findRes l₁ ++ findRes l₂ ∧
+    (name ∈ findRes l₁ ↔ name ∈ l₁ ∧ resGlob name = true) ∧
+    (resGlob name = false → findRes (l₁ ++ name :: l₂) = findRes (l₁ ++ l₂)) := by
+  refine ⟨by simp [findRes], by simp [findRes], fun h => ?_⟩
+  simp [findRes, h]
+
+/-- **C02_res_file_name** — the solver's name `<stem>.res.<rank>.<step>` is found and carries step `step`. -/
+theorem C02_res_file_name (stem : List Char) (rank step : Nat) (hne : stem ≠ []) (h : stem.head? ≠ some '.') :
+    resGlob (resFileName stem rank step) = true ∧ stepOf (resFileName stem rank step) = some step := by
+  constructor
+  · unfold resFileName
+    rw [List.append_assoc (stem ++ resInfix)]
+    exact C02_res_glob_any_stem stem _ hne h
+  · unfold resFileName
+    exact C02_step_of_name _ step
+
+/-- a directory as a solver run leaves it: mesh `model.msh`, control file `model.cnt`, results `job.res.0.<step>`, logs -/
+example : findRes ["model.msh".toList, "job.res.0.12".toList, "hecmw_ctrl.dat".toList, "job.res.0.4".toList,
+    "model.cnt".toList, "FSTR.restart_0.res".toList, ".job.res.0.1".toList, "res.0.1".toList, "0.log".toList]
+    = ["job.res.0.12".toList, "job.res.0.4".toList] := by decide
+example : resFileName "job".toList 0 12 = "job.res.0.12".toList := by decide
+/-- variable names are data: a blank-free token that starts with a letter is a name whatever else it contains
+    (FrontISTR's shell results `NodalSTRESS+`, `ElementalSTRAIN-`) -/
+example : lexLine "NodalSTRESS+".toList = [.w "NodalSTRESS+".toList] ∧ wordOKB "ElementalSTRAIN-".toList = true ∧
+    wordOKB "E+01".toList = true ∧ lexLine "1.5E+01 ".toList = [.v "1.5E+01".toList] := by decide
 
 /-- **F7** — the unrepaired code (`Cfg.upstream`) raises on a singleton step set read as a time series, the
     repaired one returns the one-step stack. -/
